@@ -27,6 +27,7 @@ pub struct EbrMirror {
     pub n_advance_refused: u64,
     pub n_registered: u64,
     pub n_finalize_nonempty: u64,
+    pub pending_soft: Vec<(String, String)>,
 }
 
 fn peek_global(addr: usize) -> u64 {
@@ -48,7 +49,8 @@ impl EbrMirror {
         if g != self.last_global {
             if g != self.last_global.wrapping_add(1) {
                 let det = format!("global epoch moved from {} to {} in one step", self.last_global, g);
-                sim().violation("C14", "clock-not-single-step", if g < self.last_global { "clock-decreased" } else { "clock-jumped" }, &det);
+                // not fatal for the run: other oracles (C13) may still have something to say
+                crate::shadow::shadow().soft("C14", if g < self.last_global { "clock-decreased" } else { "clock-jumped" }, det);
             }
             self.last_global = g;
         }
@@ -75,12 +77,17 @@ impl EbrMirror {
                     "participant of t{} is pinned (validated) at epoch {} while the global epoch is {}",
                     m.tid, e, g
                 );
-                sim().violation("C14", "pinned-sees-two-advances", "pinned-sees-two-advances", &det);
+                self.pending_soft.push(("pinned-sees-two-advances".to_string(), det));
+                m.validated = false;
             }
         }
     }
 
     pub fn pre_access(&mut self, _tid: usize, _site: u32, _addr: usize, _a: usize, _b: usize) {}
+
+    pub fn take_soft(&mut self) -> Vec<(String, String)> {
+        std::mem::take(&mut self.pending_soft)
+    }
 
     pub fn event(&mut self, tid: usize, k: u32, a: usize, _b: usize, _c: usize) {
         match k {
